@@ -192,6 +192,7 @@ fn server_bases(tier: Tier) -> Vec<SCfg> {
                                 hk: HKind::Run,
                                 cancel: false,
                                 at_ms: None,
+                                fails: false,
                             })
                             .collect();
                         out.push(SCfg {
